@@ -7,10 +7,13 @@
 //	                     the real StreamableHTTPHandler (stateful, stateless) and SSEHandler by calling
 //	                     ServeHTTP directly with httptest recorders (no sockets, inside a synctest bubble so
 //	                     that "no handler ever saw the message" is decided by quiescence, not by a timeout).
-//	TestVerif_C12Mirror  for every (schema shape, value class) of HeaderMirror!CaseSet drives a real Client over
-//	                     a real StreamableClientTransport whose http.RoundTripper serialises the request to
-//	                     HTTP/1.1 wire bytes, parses them back (what a net/http server would see) and calls the
-//	                     real stateless handler's ServeHTTP with a pipe-backed, flushable ResponseWriter.
+//	TestVerif_C12Mirror  for every (schema shape, value class, client-side history) of HeaderMirror!CaseSet drives a
+//	                     real Client over a real StreamableClientTransport whose http.RoundTripper serialises the
+//	                     request to HTTP/1.1 wire bytes, parses them back (what a net/http server would see) and
+//	                     calls the real stateless handler's ServeHTTP with a pipe-backed, flushable ResponseWriter.
+//	                     The history (ListTools / time passing / the server replacing the tool or removing the
+//	                     tools before it / list_changed notifications) is played on the real client and server
+//	                     inside a synctest bubble before the call, so ttlMs expiry happens on the fake clock.
 //
 // Both read VERIF_IN (ndjson cases), write VERIF_OUT (ndjson observations for the TLA+ monitors) and take every
 // random choice from VERIF_SEED.
@@ -581,6 +584,12 @@ type c12RT struct {
 	sent  []c12Sent // what the server-side handler received, after the wire
 }
 
+func (rt *c12RT) sentSnapshot() []c12Sent {
+	rt.mu.Lock()
+	defer rt.mu.Unlock()
+	return rt.sent[:len(rt.sent):len(rt.sent)]
+}
+
 // validFieldValue is httpguts.ValidHeaderFieldValue (what net/http.Transport enforces before sending).
 func c12ValidFieldValue(v string) bool {
 	for i := 0; i < len(v); i++ {
@@ -642,12 +651,25 @@ func (rt *c12RT) RoundTrip(req *http.Request) (*http.Response, error) {
 // ---------------------------------------------------------------------------
 // (b) HeaderMirror
 
+// c12Hist is HeaderMirrorDefs' client-side history: what happens between Connect and the call.
+type c12Hist struct {
+	TTL   string   `json:"ttl"`   // none: tools/list answers carry ttlMs 0; pos: a positive ttlMs
+	Page  string   `json:"page"`  // first: the tool is on the first page; later: on a later page only
+	Sub   bool     `json:"sub"`   // the client has a ToolListChangedHandler (keeps a subscriptions/listen stream)
+	Steps []string `json:"steps"` // list | wait | change | shrink
+}
+
+func (h c12Hist) key() string {
+	return fmt.Sprintf("%s/%s/%v/%s", h.TTL, h.Page, h.Sub, strings.Join(h.Steps, ">"))
+}
+
 type c12MirCase struct {
-	Depth int    `json:"depth"`
-	Ty    string `json:"ty"`
-	Val   string `json:"val"`
-	HName string `json:"hname"`
-	NSib  int    `json:"nsib"` // further annotated properties next to the annotated one (same parent object), all with different values
+	Depth int     `json:"depth"`
+	Ty    string  `json:"ty"`
+	Val   string  `json:"val"`
+	HName string  `json:"hname"`
+	NSib  int     `json:"nsib"` // further annotated properties next to the annotated one (same parent object), all with different values
+	Hist  c12Hist `json:"hist"`
 }
 
 type c12MirOut struct {
@@ -659,6 +681,7 @@ type c12MirOut struct {
 	Sent     bool   `json:"sent"`     // a tools/call request for this tool reached the wire
 	Own      bool   `json:"own"`      // the header the client sent for the parameter decodes to that parameter's own body value
 	SibOK    bool   `json:"sibok"`    // every sibling's header decodes to that sibling's own value, and the handler saw each sibling unaltered
+	Via      string `json:"via"`      // the definition the request shows: Mcp-Param-* under the tool's current header names (current), under names of an earlier revision (stale), none at all (none)
 }
 
 type c12MirLine struct {
@@ -894,55 +917,176 @@ func c12Canon(v any) any {
 	return out
 }
 
-func c12MirChunk(t *testing.T, jobs []*c12MirJob, enc *json.Encoder) {
+// c12HdrName is the header name an annotation carries in revision ver of the tool ("change" renames every one).
+func c12HdrName(base string, ver int) string {
+	if ver == 0 {
+		return base
+	}
+	return fmt.Sprintf("%s-r%d", base, ver)
+}
+
+// c12Revise copies a schema, giving every x-mcp-header annotation its name of revision ver.
+func c12Revise(v any, ver int) any {
+	m, ok := v.(map[string]any)
+	if !ok {
+		return v
+	}
+	out := make(map[string]any, len(m))
+	for k, e := range m {
+		if name, isName := e.(string); isName && k == "x-mcp-header" {
+			out[k] = c12HdrName(name, ver)
+		} else {
+			out[k] = c12Revise(e, ver)
+		}
+	}
+	return out
+}
+
+// c12MirChunk plays history h on a fresh real client / real stateless server pair that serves the tools of jobs,
+// then makes every job's call.  Everything runs in one synctest bubble: time only passes in the "wait" steps (and
+// the 50 ms given to the server's debounced list_changed notification).
+func c12MirChunk(t *testing.T, r *rand.Rand, h c12Hist, jobs []*c12MirJob, enc *json.Encoder) {
+	synctest.Test(t, func(t *testing.T) { c12MirChunkIn(t, r, h, jobs, enc) })
+}
+
+func c12MirChunkIn(t *testing.T, r *rand.Rand, h c12Hist, jobs []*c12MirJob, enc *json.Encoder) {
 	type got struct {
 		args json.RawMessage
 	}
 	var mu sync.Mutex
 	ran := map[string]got{}
-	server := mcp.NewServer(&mcp.Implementation{Name: "c12mirror", Version: "1"}, nil)
-	for _, j := range jobs {
-		server.AddTool(&mcp.Tool{Name: j.tool, InputSchema: j.schema}, func(ctx context.Context, req *mcp.CallToolRequest) (*mcp.CallToolResult, error) {
-			mu.Lock()
-			ran[req.Params.Name] = got{args: append(json.RawMessage{}, req.Params.Arguments...)}
-			mu.Unlock()
-			return &mcp.CallToolResult{Content: []mcp.Content{&mcp.TextContent{Text: "ok"}}}, nil
-		})
+	toolHandler := func(ctx context.Context, req *mcp.CallToolRequest) (*mcp.CallToolResult, error) {
+		mu.Lock()
+		ran[req.Params.Name] = got{args: append(json.RawMessage{}, req.Params.Arguments...)}
+		mu.Unlock()
+		return &mcp.CallToolResult{Content: []mcp.Content{&mcp.TextContent{Text: "ok"}}}, nil
 	}
+	// layout: tools are listed in name order, "a_fill_*" < "tool_*" < "zz_fill_*"
+	pageSize := len(jobs) + r.IntN(3)
+	server := mcp.NewServer(&mcp.Implementation{Name: "c12mirror", Version: "1"}, &mcp.ServerOptions{PageSize: pageSize})
+	ver := 0
+	addTools := func() {
+		for _, j := range jobs {
+			server.AddTool(&mcp.Tool{Name: j.tool, InputSchema: c12Revise(j.schema, ver)}, toolHandler)
+		}
+	}
+	addTools()
+	plain := map[string]any{"type": "object"}
+	var fillers []string
+	if h.Page == "later" { // exactly one page of other tools before the first job tool
+		for i := 0; i < pageSize; i++ {
+			fillers = append(fillers, fmt.Sprintf("a_fill_%03d", i))
+			server.AddTool(&mcp.Tool{Name: fillers[i], InputSchema: plain}, toolHandler)
+		}
+	}
+	for i, n := 0, r.IntN(4); i < n; i++ { // other tools after the last job tool (possibly a page of their own)
+		server.AddTool(&mcp.Tool{Name: fmt.Sprintf("zz_fill_%d", i), InputSchema: plain}, toolHandler)
+	}
+	ttl := time.Duration(0)
+	if h.TTL == "pos" {
+		ttl = c12Pick(r, time.Second, 2500*time.Millisecond, 30*time.Second)
+	}
+	server.AddReceivingMiddleware(func(next mcp.MethodHandler) mcp.MethodHandler {
+		return func(ctx context.Context, method string, req mcp.Request) (mcp.Result, error) {
+			res, err := next(ctx, method, req)
+			if lr, ok := res.(*mcp.ListToolsResult); ok && err == nil {
+				lr.TTLMs = int(ttl / time.Millisecond)
+			}
+			return res, err
+		}
+	})
 	handler := mcp.NewStreamableHTTPHandler(func(*http.Request) *mcp.Server { return server }, &mcp.StreamableHTTPOptions{Stateless: true})
 	rt := &c12RT{h: handler, local: &net.TCPAddr{IP: net.ParseIP("127.0.0.1"), Port: 8080}}
-	ctx, cancel := context.WithTimeout(context.Background(), 120*time.Second)
+	ctx, cancel := context.WithCancel(context.Background())
 	defer cancel()
-	client := mcp.NewClient(&mcp.Implementation{Name: "c12client", Version: "1"}, nil)
+	var copts *mcp.ClientOptions
+	notified := 0
+	if h.Sub {
+		copts = &mcp.ClientOptions{ToolListChangedHandler: func(context.Context, *mcp.ToolListChangedRequest) {
+			mu.Lock()
+			notified++
+			mu.Unlock()
+		}}
+	}
+	client := mcp.NewClient(&mcp.Implementation{Name: "c12client", Version: "1"}, copts)
 	cs, err := client.Connect(ctx, &mcp.StreamableClientTransport{
 		Endpoint: "http://127.0.0.1:8080/mcp", HTTPClient: &http.Client{Transport: rt}, DisableStandaloneSSE: true, MaxRetries: -1,
 	}, nil)
 	if err != nil {
 		t.Fatalf("c12 mirror: connect: %v", err)
 	}
-	defer cs.Close()
+	defer func() {
+		cs.Close()
+		for ss := range server.Sessions() {
+			ss.Close()
+		}
+		synctest.Wait()
+	}()
 	if pv := cs.InitializeResult().ProtocolVersion; pv != c12VerNew {
 		t.Fatalf("c12 mirror: negotiated %q, want %s (the Mcp-* mirrors are only enforced there)", pv, c12VerNew)
 	}
-	listed := map[string]bool{}
-	for tool, err := range cs.Tools(ctx, nil) {
-		if err != nil {
-			t.Fatalf("c12 mirror: tools/list: %v", err)
-		}
-		listed[tool.Name] = true
+
+	// ---- the history
+	settle := func() { // a debounced list_changed notification (10 ms) has gone out and has been handled
+		time.Sleep(50 * time.Millisecond)
+		synctest.Wait()
 	}
-	for _, j := range jobs {
-		if !listed[j.tool] {
-			t.Fatalf("c12 mirror: tool %s with a valid annotation was not listed by the client (schema %v)", j.tool, j.schema)
+	shifted := false
+	var trail []string
+	for _, step := range h.Steps {
+		switch step {
+		case "list":
+			base := len(rt.sentSnapshot())
+			listed := map[string]bool{}
+			for tool, err := range cs.Tools(ctx, nil) {
+				if err != nil {
+					t.Fatalf("c12 mirror: tools/list: %v", err)
+				}
+				listed[tool.Name] = true
+			}
+			for _, j := range jobs {
+				if !listed[j.tool] {
+					t.Fatalf("c12 mirror: tool %s with a valid annotation was not listed by the client (schema %v)", j.tool, j.schema)
+				}
+			}
+			trail = append(trail, fmt.Sprintf("list(%d requests)", len(rt.sentSnapshot())-base))
+		case "wait":
+			d := c12Pick(r, time.Second, time.Hour)
+			if ttl > 0 {
+				d = c12Pick(r, ttl, ttl+time.Millisecond, 3*ttl)
+			}
+			time.Sleep(d)
+			trail = append(trail, "wait("+d.String()+")")
+		case "change":
+			ver++
+			addTools()
+			settle()
+			trail = append(trail, fmt.Sprintf("change(r%d)", ver))
+		case "shrink":
+			if !shifted && len(fillers) > 0 {
+				server.RemoveTools(fillers...)
+				shifted = true
+			}
+			settle()
+			trail = append(trail, "shrink")
+		default:
+			t.Fatalf("c12 mirror: unknown step %q", step)
 		}
-		rt.mu.Lock()
-		base := len(rt.sent)
-		rt.mu.Unlock()
+	}
+	mu.Lock()
+	trail = append(trail, fmt.Sprintf("notified=%d", notified))
+	mu.Unlock()
+
+	// ---- the calls
+	for _, j := range jobs {
+		base := len(rt.sentSnapshot())
 		cctx, ccancel := context.WithTimeout(ctx, 20*time.Second)
 		res, err := cs.CallTool(cctx, &mcp.CallToolParams{Name: j.tool, Arguments: j.args})
 		ccancel()
 		var out c12MirOut
-		conc := map[string]string{"header": "Mcp-Param-" + j.header, "path": strings.Join(j.path, "/")}
+		header := c12HdrName(j.header, ver) // what the server enforces now
+		conc := map[string]string{"header": "Mcp-Param-" + header, "path": strings.Join(j.path, "/"), "history": strings.Join(trail, " "),
+			"ttl": ttl.String(), "pagesize": strconv.Itoa(pageSize)}
 		ab, _ := json.Marshal(j.args)
 		conc["args"] = string(ab)
 		if err != nil {
@@ -985,13 +1129,36 @@ func c12MirChunk(t *testing.T, jobs []*c12MirJob, enc *json.Encoder) {
 				}
 			}
 		}
-		rt.mu.Lock()
-		for _, s := range rt.sent[base:] {
+		// header names of the tool's revisions: the current one and the earlier ones
+		names := map[string]int{}
+		for v := 0; v <= ver; v++ {
+			names[http.CanonicalHeaderKey("Mcp-Param-"+c12HdrName(j.header, v))] = v
+			for _, sb := range j.sibs {
+				names[http.CanonicalHeaderKey("Mcp-Param-"+c12HdrName(sb.header, v))] = v
+			}
+		}
+		out.Via = "none"
+		for _, s := range rt.sentSnapshot()[base:] {
 			if s.Header.Get("Mcp-Method") != "tools/call" || s.Header.Get("Mcp-Name") != j.tool {
 				continue
 			}
 			out.Sent = true
-			vals, present := s.Header[http.CanonicalHeaderKey("Mcp-Param-"+j.header)]
+			for k := range s.Header {
+				if !strings.HasPrefix(k, "Mcp-Param-") {
+					continue
+				}
+				via := "unknown"
+				if v, ok := names[k]; ok && v == ver {
+					via = "current"
+				} else if ok {
+					via = "stale"
+				}
+				if out.Via != "none" && out.Via != via {
+					via = "mixed"
+				}
+				out.Via = via
+			}
+			vals, present := s.Header[http.CanonicalHeaderKey("Mcp-Param-"+header)]
 			switch {
 			case !present:
 				out.Hdr = "none"
@@ -1014,14 +1181,14 @@ func c12MirChunk(t *testing.T, jobs []*c12MirJob, enc *json.Encoder) {
 			}
 			for _, sb := range j.sibs {
 				want, _ := c12HeaderText(sb.val)
-				sv := s.Header[http.CanonicalHeaderKey("Mcp-Param-"+sb.header)]
+				sname := "Mcp-Param-" + c12HdrName(sb.header, ver)
+				sv := s.Header[http.CanonicalHeaderKey(sname)]
 				if got, ok := c12Decode(strings.Join(sv, " | ")); len(sv) != 1 || !ok || got != want {
 					out.SibOK = false
-					conc["sibling-header"] = fmt.Sprintf("Mcp-Param-%s=%q for %s=%q", sb.header, strings.Join(sv, " | "), sb.name, want)
+					conc["sibling-header"] = fmt.Sprintf("%s=%q for %s=%q", sname, strings.Join(sv, " | "), sb.name, want)
 				}
 			}
 		}
-		rt.mu.Unlock()
 		if out.Hdr == "" {
 			out.Hdr = "none"
 		}
@@ -1033,20 +1200,32 @@ func TestVerif_C12Mirror(t *testing.T) {
 	seed, reps, in, enc, done := c12IO(t)
 	defer done()
 	r := rand.New(rand.NewPCG(seed, 1212))
-	var jobs []*c12MirJob
+	// jobs grouped by history (order of first appearance): a chunk shares one client, one server and one history
+	byHist := map[string][]*c12MirJob{}
+	var order []string
 	idx := 0
 	for in.Scan() {
 		var c c12MirCase
 		if err := json.Unmarshal(in.Bytes(), &c); err != nil {
 			t.Fatalf("bad case: %v", err)
 		}
+		if c.Hist.Steps == nil {
+			c.Hist.Steps = []string{}
+		}
+		k := c.Hist.key()
+		if _, ok := byHist[k]; !ok {
+			order = append(order, k)
+		}
 		for rep := 0; rep < reps; rep++ {
-			jobs = append(jobs, c12MirJobFor(r, c, rep, idx))
+			byHist[k] = append(byHist[k], c12MirJobFor(r, c, rep, idx))
 		}
 		idx++
 	}
 	const chunk = 48
-	for i := 0; i < len(jobs); i += chunk {
-		c12MirChunk(t, jobs[i:min(i+chunk, len(jobs))], enc)
+	for _, k := range order {
+		jobs := byHist[k]
+		for i := 0; i < len(jobs); i += chunk {
+			c12MirChunk(t, r, jobs[0].c.Hist, jobs[i:min(i+chunk, len(jobs))], enc)
+		}
 	}
 }
